@@ -33,6 +33,61 @@ def exported_constants(ctx, case, res, fail):
                             f"{pl.TT_NAME.get(to.type)} instead of {pl.TT_NAME.get(t.type)}", "exported-constant-retyped")
 
 
+def gen_cross_dtype(rng, i):
+    """converters alias constants with IDENTICAL BYTES whatever their types: an all-zero float32 constant (a zero bias, a zero addend) and
+    an all-zero int32 index operand (`begin` of a STRIDED_SLICE) over ONE buffer, under recipes that rewrite the float constant"""
+    import numpy as np
+    from ai_edge_litert import schema_py_generated as s
+    from .. import gen_models as gm
+    g = gm.G()
+    g.subgraph()
+    gr = gm.Grower(g, rng, "")
+    b, k = rng.randint(1, 3), rng.randint(2, 4)
+    x = gr.add_input([b, k])
+    cur, width = x, k
+    if rng.random() < 0.6:
+        w = gr.const([2, k], kind="normal")
+        zb = g.tensor(gr.name("zero_bias"), [2], data=np.zeros([2], np.float32))
+        y = gr.new_act([b, 2])
+        g.op(gm.BO.FULLY_CONNECTED, [x, w, zb], [y], gm.OPT.FullyConnectedOptions, s.FullyConnectedOptionsT())
+        cur, width, zero_f = y, 2, zb
+    else:
+        x2 = gr.add_input([b, 2]) if k != 2 else x
+        zc = g.tensor(gr.name("zero_addend"), [2], data=np.zeros([2], np.float32))
+        y = gr.new_act([b, 2])
+        if rng.random() < 0.5:
+            g.op(gm.BO.ADD, [x2, zc], [y], gm.OPT.AddOptions, s.AddOptionsT())
+        else:
+            g.op(gm.BO.SUB, [x2, zc], [y], gm.OPT.SubOptions, s.SubOptionsT())
+        cur, width, zero_f = y, 2, zc
+    shared = g.sg.tensors[zero_f].buffer
+    begin = g.tensor(gr.name("begin"), [2], gm.TT.INT32, buffer=shared)          # 8 zero bytes read as int32[2]
+    end = g.tensor(gr.name("end"), [2], gm.TT.INT32, data=np.array([b, rng.randint(1, 2)], np.int32))
+    strides = g.tensor(gr.name("strides"), [2], gm.TT.INT32, data=np.array([1, 1], np.int32))
+    e = int(np.frombuffer(bytes(g.m.buffers[g.sg.tensors[end].buffer].data), dtype=np.int32)[1])
+    z = gr.new_act([b, e])
+    g.op(gm.BO.STRIDED_SLICE, [cur, begin, end, strides], [z], gm.OPT.StridedSliceOptions, s.StridedSliceOptionsT())
+    g.io(gr.inputs, [z] + ([cur] if rng.random() < 0.4 else []), sig="serving_default")
+    mb = g.bytes()
+    info = {"tags": {"cross_dtype_shared_buffer"}, "subgraphs": [{"sig": "serving_default", "int_inputs": [], "ops": ["FULLY_CONNECTED", "STRIDED_SLICE"]}]}
+    if rng.random() < 0.5:
+        name, rec = rng.choice([r for r in pl_shipped() if "a8w8" in r[0] or "a16w8" in r[0]])
+        return fp.Case(mb, info, recipe=rec, data=gm.random_inputs(mb, rng, n=1), desc=name + " (cross-dtype alias)")
+    cfg = pl_uniform()[rng.choice(["a8w8", "a16w8", "a8sw8t"])]
+    cmds = [{"k": "add", "regex": ".*", "operation": "*", "cfg": cfg, "alg": "min_max_uniform_quantize"}]
+    return fp.Case(mb, info, cmds=cmds, data=gm.random_inputs(mb, rng, n=1), desc=[("cross-dtype alias", cfg["act"]["bits"])])
+
+
+def pl_shipped():
+    from .. import pipeline as pl
+    return pl.shipped_recipes()
+
+
+def pl_uniform():
+    from .. import pipeline as pl
+    return pl.UNIFORM
+
+
 def run(ctx):
     ctx.rule = ("generated models with tied constants (one buffer referenced by several tensors within a subgraph and across subgraphs, one constant tensor with 2..3 consumers, shared constant feeding fc and elementwise ops) x recipes assigning equal, different or no quantization to the sharers (shipped, per-op regex rules, float casting, no_quantize); every buffer of the output is decoded against every tensor referencing it; rejections are allowed; the pipeline is compared with the Lean model; distinct = distinct (model, recipe) pairs")
     ctx.explanation = ("END TO END on the model (C15.quantize_shared_consistent): for every model in normal form, recipe state, regex semantics and "
@@ -59,6 +114,8 @@ def run(ctx):
     n = 600 if ctx.tier == "quick" else 4000
     fp.explore(ctx, drv, n // 2, per_case, gen=fp.gen_tied_case, graph_corr=True, pipe_corr=True)
     fp.explore(ctx, drv, n // 2, per_case, gen=lambda rng, i: fp.gen_case(rng, i, share_every=1, const_output=0.35 if i % 2 else 0.0), graph_corr=False, pipe_corr=True)
+    # one buffer behind tensors of DIFFERENT types (identical bytes aliased by the converter): rejected, or every referent still agrees with it
+    fp.explore(ctx, drv, 30 if ctx.tier == "quick" else 300, per_case, gen=gen_cross_dtype, graph_corr=False, pipe_corr=True)
     # BLOCKWISE weights (emulated sub-channel pattern, reachable with skip_checks only; outside the Lean model): the weight's buffer also
     # backs a tensor nobody reads / the weight of a second operator the rule does not cover — rejected, or every referent agrees with the bytes
     from .. import pipeline as pl
